@@ -383,8 +383,9 @@ func tlcPC(pc string) string {
 }
 
 // compareWithTLC returns "" if the reference behaviour equals the TLC behaviour state by state.
-func compareWithTLC(pr *Prog, states []map[string]tval) string {
+func compareWithTLC(pr *Prog, states []map[string]tval, quirk bool) string {
 	r := NewRef(pr)
+	r.PcalTailQuirk = quirk
 	for i, p := range pr.Procs { // PlusCal: declared initial values hold from Init on
 		if p.Y == "const" {
 			r.Slots[procName(i)+".y"] = num(p.YInit)
@@ -481,16 +482,30 @@ func tlcValidate(env hres.Env, cov map[string]any) {
 	}
 	// candidates: every enumerated program that has a PlusCal counterpart and terminates on the reference
 	var cands []*Prog
-	total, noCounterpart := 0, 0
+	total, noCounterpart, needsLabel := 0, 0, 0
 	enumerate(enumCfg{maxProcs: 2, maxSize: 4}, func(p *Prog) {
 		total++
 		if _, ok := specialise(p); !ok {
 			noCounterpart++
 			return
 		}
+		// PlusCal needs a label between an assignment to a procedure's variable and a call of that procedure
+		// (the call assigns all of its variables again): such label bodies are not PlusCal
+		for i, q := range p.Procs {
+			for _, l := range q.Labels {
+				if (l.T.K == "call" || l.T.K == "tail") && l.T.P == i {
+					for _, a := range l.As {
+						if isRef, _ := p.hasVar(i, a.T); !isRef {
+							needsLabel++
+							return
+						}
+					}
+				}
+			}
+		}
 		cands = append(cands, p)
 	})
-	const want = 150
+	var want = wantSample()
 	stride := len(cands)/want + 1
 	type job struct {
 		idx int
@@ -548,6 +563,7 @@ func tlcValidate(env hres.Env, cov map[string]any) {
 	cov["tlc_validation"] = map[string]any{
 		"programs_enumerated":       total,
 		"without_pluscal_counterpart": noCounterpart,
+		"not_pluscal_missing_label":   needsLabel,
 		"candidates":                len(cands),
 		"validated_sample":          len(jobs),
 		"verdicts":                  results,
@@ -604,8 +620,32 @@ func validateOne(root string, idx int, pr *Prog) (verdict string, states int) {
 	if perr != nil {
 		return "dump_unparsed: " + perr.Error(), 0
 	}
-	if why := compareWithTLC(pr, sts); why != "" {
+	cross := false
+	for i, p := range pr.Procs {
+		for _, l := range p.Labels {
+			if l.T.K == "tail" && l.T.P != i {
+				cross = true
+			}
+		}
+	}
+	if why := compareWithTLC(pr, sts, false); why != "" {
+		if cross {
+			// pcal does not restore the tail-calling procedure's variables (see Ref.PcalTailQuirk): with exactly
+			// that deviation modelled, the behaviours must coincide
+			if why2 := compareWithTLC(pr, sts, true); why2 == "" {
+				return "equal_modulo_pcal_cross_procedure_tailcall_quirk", len(sts)
+			}
+		}
 		return "MISMATCH " + why, len(sts)
 	}
 	return "equal", len(sts)
+}
+
+func wantSample() int {
+	if s := os.Getenv("VERIF_C04_TLC_SAMPLE"); s != "" {
+		if n, err := strconv.Atoi(s); err == nil && n > 0 {
+			return n
+		}
+	}
+	return 150
 }
